@@ -28,12 +28,13 @@ def classOf (code : Nat) : Option Nat :=
   else if code ∈ [7, 8, 16, 17, 18, 23, 32, 40] then some 3
   else none
 
-/-- AS_PATH value: a sequence of segments (type 1..4, count, count four-octet AS numbers) -/
+/-- AS_PATH value: a sequence of segments (type 1..4, non-zero count, count four-octet AS numbers;
+    RFC 4271 §4.3, RFC 7606 §7.2) -/
 def segments : Bytes → Bool
   | [] => true
   | [_] => false
   | t :: n :: rest =>
-      if 1 ≤ t ∧ t ≤ 4 ∧ n * 4 ≤ rest.length then segments (rest.drop (n * 4)) else false
+      if 1 ≤ t ∧ t ≤ 4 ∧ n ≠ 0 ∧ n * 4 ≤ rest.length then segments (rest.drop (n * 4)) else false
 termination_by bs => bs.length
 decreasing_by simp only [List.length_drop, List.length_cons]; omega
 
@@ -56,7 +57,9 @@ def aigpTlvs : Bytes → Bool
 termination_by bs => bs.length
 decreasing_by simp only [List.length_drop, List.length_cons]; omega
 
-def isBytes (bs : Bytes) : Bool := bs.all (· < 256)
+/-- octets, and no more of them than one UPDATE can carry in one attribute: 65535 (RFC 8654 maximum
+    message) - 19 header - 2 - 2 length fields - 4 attribute header -/
+def isBytes (bs : Bytes) : Bool := bs.all (· < 256) && bs.length ≤ 65508
 
 /-- `need c clause rest`: the invariant `c` must hold (else the violation is named `clause`), then `rest` -/
 def need (c : Bool) (clause : String) (rest : Option String) : Option String :=
@@ -122,24 +125,28 @@ def rdOk : Rd → Bool
 
 def labelsOk (ls : List Nat) : Bool := ls.length ≥ 1 && ls.all (· < 1048576)
 
-/-- prefix length within the address width, address fits, label stack non-empty and the one-octet
-    NLRI length field can hold labels + RD + prefix -/
+/-- the octets of a `w`-octet address after the `ceil(m/8)` significant ones are zero (the wire carries
+    only the significant octets; bits inside the last one are not checked by the decoder) -/
+def hostOctetsZero (w a m : Nat) : Bool := a % 2 ^ ((w - (m + 7) / 8) * 8) = 0
+
+/-- prefix length within the address width, address fits and has no octet beyond the prefix, label stack
+    non-empty and the one-octet NLRI length field can hold labels + RD + prefix -/
+def prefixClause (w a m : Nat) (rest : Option String) : Option String :=
+  need (decide (m ≤ w * 8)) "bad-prefix-length" <| need (decide (a < 2 ^ (w * 8))) "bad-address" <|
+  need (hostOctetsZero w a m) "host-octets-set" rest
+
 def nlriClause : Nlri → Option String
-  | .v4 a m => need (decide (m ≤ 32)) "bad-prefix-length" <| need (decide (a < 2 ^ 32)) "bad-address" none
-  | .v6 a m => need (decide (m ≤ 128)) "bad-prefix-length" <| need (decide (a < 2 ^ 128)) "bad-address" none
+  | .v4 a m => prefixClause 4 a m none
+  | .v6 a m => prefixClause 16 a m none
   | .lv4 ls a m =>
-      need (decide (m ≤ 32)) "bad-prefix-length" <| need (decide (a < 2 ^ 32)) "bad-address" <|
-      need (labelsOk ls && decide (ls.length * 24 + m ≤ 255)) "bad-label-stack" none
+      prefixClause 4 a m <| need (labelsOk ls && decide (ls.length * 24 + m ≤ 255)) "bad-label-stack" none
   | .lv6 ls a m =>
-      need (decide (m ≤ 128)) "bad-prefix-length" <| need (decide (a < 2 ^ 128)) "bad-address" <|
-      need (labelsOk ls && decide (ls.length * 24 + m ≤ 255)) "bad-label-stack" none
+      prefixClause 16 a m <| need (labelsOk ls && decide (ls.length * 24 + m ≤ 255)) "bad-label-stack" none
   | .vpn4 ls rd a m =>
-      need (decide (m ≤ 32)) "bad-prefix-length" <| need (decide (a < 2 ^ 32)) "bad-address" <|
-      need (labelsOk ls && decide (ls.length * 24 + 64 + m ≤ 255)) "bad-label-stack" <|
+      prefixClause 4 a m <| need (labelsOk ls && decide (ls.length * 24 + 64 + m ≤ 255)) "bad-label-stack" <|
       need (rdOk rd) "bad-rd" none
   | .vpn6 ls rd a m =>
-      need (decide (m ≤ 128)) "bad-prefix-length" <| need (decide (a < 2 ^ 128)) "bad-address" <|
-      need (labelsOk ls && decide (ls.length * 24 + 64 + m ≤ 255)) "bad-label-stack" <|
+      prefixClause 16 a m <| need (labelsOk ls && decide (ls.length * 24 + 64 + m ≤ 255)) "bad-label-stack" <|
       need (rdOk rd) "bad-rd" none
 
 def WFN (n : Nlri) : Prop := nlriClause n = none
@@ -167,7 +174,14 @@ def roundTrip (o : AttrObs) : Verdict :=
       match o.back with
       | none => .fail "observation-incomplete"
       | some .panic => .fail "roundtrip-from-api-panics"
-      | some .err => .fail "roundtrip-value-rejected"
+      | some .err =>
+          -- a recognised attribute stored with a flags byte other than the one of its class cannot be
+          -- written back through a raw message (same root as `roundtrip-flags-differ`)
+          (match classOf o.a.code with
+           | some cls =>
+               if o.a.flags ≠ (if cls = 1 then 64 else if cls = 2 then 128 else 192)
+               then .fail "roundtrip-noncanonical-flags-rejected" else .fail "roundtrip-value-rejected"
+           | none => .fail "roundtrip-value-rejected")
       | some (.ok a') =>
           if a' = o.a then .ok
           else if a'.code = o.a.code ∧ a'.data = o.a.data then .fail "roundtrip-flags-differ"
@@ -178,31 +192,79 @@ def seq (a b : Verdict) : Verdict :=
   | .ok => b
   | f => f
 
-/-- `stream` names where the value came from: "decoded" (wire) or "accepted" (API) -/
+/-- `stream` names where the value came from: "decoded" (wire) or "accepted" (API).  Safety is judged
+    before the round trip, so a known round-trip finding never hides a crash. -/
 def checkAttr (stream : String) (o : AttrObs) : Verdict :=
   seq (match wfClause o.a with
        | some c => .fail (stream ++ "-" ++ c)
        | none => .ok)
-  (seq (roundTrip o)
-       (match crashed o.use with
+  (seq (match crashed o.use with
         | some c => .fail (stream ++ "-value-crashes-" ++ c)
-        | none => .ok))
+        | none => .ok)
+       (roundTrip o))
+
+/-- "a path added through the API is listed with the same content": what `attr_to_api` shows for the
+    accepted value against the message that was sent.  Allowed re-presentations: a raw message may leave
+    `flags` 0 (unset) and is listed with the flags of its code; a raw extended community may be listed in its
+    typed form (the 8 octets are judged by the round trip). -/
+def sameExtcom : ExtCom → ExtCom → Bool
+  | .unknown ty v, .unknown ty' v' => ty = ty' && v = v'
+  | .unknown _ _, _ => true
+  | a, b => a = b
+
+def sameExtcoms : List ExtCom → List ExtCom → Bool
+  | [], [] => true
+  | a :: as, b :: bs => sameExtcom a b && sameExtcoms as bs
+  | _, _ => false
+
+def sameListed : ApiAttr → ApiAttr → Bool
+  | .unknown f t v, .unknown f' t' v' => t = t' && v = v' && (f = f' || f = 0)
+  | .extCommunities l, .extCommunities l' => sameExtcoms l l'
+  | a, b => a = b
+
+def checkListed (x : ApiAttr) (o : AttrObs) : Verdict :=
+  match o.api with
+  | .ok y => if sameListed x y then .ok else .fail "listed-differs-from-added"
+  | _ => .ok      -- a panic / failure of `attr_to_api` is reported by `roundTrip`
 
 def checkNlri (stream : String) (o : NlriObs) : Verdict :=
   seq (match nlriClause o.n with
        | some c => .fail (stream ++ "-nlri-" ++ c)
        | none => .ok)
-  (seq (match o.back with
+  (seq (match o.enc with
+        | .panic => .fail (stream ++ "-nlri-crashes-encode")
+        | _ => .ok)
+  (seq (match o.msg with
+        | .panic => .fail (stream ++ "-nlri-crashes-update-encode")
+        | _ => .ok)
+  (seq (match o.ins with
+        | .panic => .fail (stream ++ "-nlri-crashes-table-insert")
+        | _ => .ok)
+       (match o.back with
         | .ok n' => if n' = o.n then .ok else .fail "roundtrip-nlri-differs"
         | .err => .fail "roundtrip-nlri-rejected"
-        | .panic => .fail "roundtrip-nlri-from-api-panics")
-       (match o.enc with
-        | .panic => .fail (stream ++ "-nlri-crashes-encode")
-        | _ => .ok))
+        | .panic => .fail "roundtrip-nlri-from-api-panics"))))
 
 def checkAll (stream : String) : List NlriObs → Verdict
   | [] => .ok
   | o :: rest => seq (checkNlri stream o) (checkAll stream rest)
+
+/-- name of an attribute message kind, for the clause of a path attribute that ListPath does not show -/
+def kindOf : ApiAttr → String
+  | .nextHop _ => "next-hop"
+  | .unknown _ 14 _ => "next-hop"          -- a raw MP_REACH_NLRI is a next-hop carrier
+  | .originatorId _ => "originator-id"
+  | .clusterList _ => "cluster-list"
+  | _ => "attribute"
+
+/-- every attribute that was sent is listed; anything listed beyond that is one of the two mandatory
+    attributes `local_path` supplies when the request has none (ORIGIN IGP, empty AS_PATH) -/
+def checkPath (sent listed : List ApiAttr) : Verdict :=
+  match sent.find? (fun x => !(listed.any (sameListed x))) with
+  | some x => .fail ("listed-path-lacks-" ++ kindOf x)
+  | none =>
+      if listed.all (fun y => sent.any (fun x => sameListed x y) || y = .origin 0 || y = .asPath []) then .ok
+      else .fail "listed-path-has-extra-attribute"
 
 def check : Case → Obs → Verdict
   | _, .unmodelled => .ok
@@ -210,13 +272,21 @@ def check : Case → Obs → Verdict
   | .attrWire .., .attr o => checkAttr "decoded" o
   | .attrApi _, .fromErr => .ok
   | .attrApi _, .fromPanic => .fail "from-api-panics"
-  | .attrApi _, .attr o => checkAttr "accepted" o
+  | .attrApi x, .attr o => seq (checkAttr "accepted" o) (checkListed x o)
   | .nlriWire .., .decodeErr => .ok
   | .nlriWire .., .decodePanic => .fail "nlri-decoder-panics"
   | .nlriWire .., .nlris l => checkAll "decoded" l
   | .nlriApi _, .fromErr => .ok
   | .nlriApi _, .fromPanic => .fail "nlri-from-api-panics"
-  | .nlriApi _, .nlris l => checkAll "accepted" l
+  | .nlriApi x, .nlris l =>
+      seq (checkAll "accepted" l)
+        (match l with
+         | [o] => if o.api = x then .ok else .fail "listed-differs-from-added"
+         | _ => .fail "unexpected-observation")
+  | .grpc _ _, .addRefused => .ok
+  | .grpc _ _, .listPanic => .fail "add-or-list-path-panics"
+  | .grpc x sent, .listed n ys =>
+      if n = x then checkPath sent ys else .fail "listed-differs-from-added"
   | .explore _, .exploreOk => .ok
   | .explore k, .exploreFail w => .fail ("explore-" ++ k ++ "-" ++ w)
   | _, _ => .fail "unexpected-observation"
